@@ -389,26 +389,30 @@ fn composed(prof: &str, op: &str, s: &str) -> String {
 }
 
 fn stabilize_op(start: &str, table: &str) -> String {
-    // states are single characters 'a'+i; table entries: next state index, "E" (rule's own error), "I" (Invalid)
+    // state i is the string "a" repeated i+1 times; table entries: next state index, "E" (rule's own error),
+    // "I" (Invalid).  A transition to a SHORTER (or equal) state is handed back as a borrowed prefix of the input
+    // (Cow::Borrowed), a transition to a longer one as an owned string: both Cow variants are exercised.
     let tab: Vec<&str> = table.split(' ').filter(|t| !t.is_empty()).collect();
     let calls: RefCell<Vec<String>> = RefCell::new(Vec::new());
-    let state_str = |i: usize| -> String { char::from_u32(0x61 + i as u32).unwrap().to_string() };
-    let start_i: usize = start.parse().unwrap();
-    let f = |s: &str| -> Result<Cow<'static, str>, Error> {
+    let state_str = |i: usize| -> String { "a".repeat(i + 1) };
+    let start_i: usize = start.parse().unwrap_or_else(|_| proto("usize"));
+    let f = |s: &str| -> Result<Option<usize>, Error> {
         calls.borrow_mut().push(fmt_str(s));
-        let c = s.chars().next().unwrap() as u32;
-        let i = (c - 0x61) as usize;
+        let i = s.len() - 1;
         match tab[i] {
             "E" => Err(Error::Unexpected(UnexpectedError::ProfileRuleNotApplicable)),
             "I" => Err(Error::Invalid),
-            t => Ok(Cow::Owned(state_str(t.parse().unwrap()))),
+            t => Ok(Some(t.parse().unwrap_or_else(|_| proto("usize")))),
         }
     };
-    // adapt lifetimes: stabilize wants for<'b> Fn(&'b str) -> Result<Cow<'b, str>, Error>
-    fn adapt<'b>(r: Result<Cow<'static, str>, Error>) -> Result<Cow<'b, str>, Error> {
-        r
-    }
-    let res = stabilize(state_str(start_i), |s| adapt(f(s)));
+    let res = stabilize(state_str(start_i), |s| {
+        let j = f(s)?.unwrap();
+        if j + 1 <= s.len() {
+            Ok(Cow::Borrowed(&s[..j + 1]))
+        } else {
+            Ok(Cow::Owned("a".repeat(j + 1)))
+        }
+    });
     let r = fmt_cow(res);
     format!("{};calls={}", r, calls.borrow().join(","))
 }
